@@ -311,7 +311,9 @@ def gen_ym(tree):
     def glue(s, env, lines, pad):
         # float -> int coercion and month-name lookup: the identity on integers (covered by correspondence only)
         return (same(s, 'y = int(y) if is_float(y) and int(y) == y else y') or same(s, 'm = month(m)')
-                or same(s, 'd = int(d) if is_float(d) and int(d) == d else d'))
+                or same(s, 'd = int(d) if is_float(d) and int(d) == d else d')
+                # C04-D7: numpy integers too are turned into python ints (the identity on the integers the model ranges over)
+                or same(s, 'd = int(d) if is_int(d) or (is_float(d) and int(d) == d) else d'))
 
     def ret_pair(v, env):
         if not (isinstance(v, ast.Tuple) and len(v.elts) == 2):
